@@ -521,7 +521,7 @@ func tryReplay(dir string, o *Obligation, r *checkRun) (string, bool) {
 	fmt.Fprintf(&src, "//go:build verif\n\npackage %s\n\nimport (\n\t\"testing\"\n", pkg.Name)
 	src.WriteString("/*IMPORTS*/)\n\n")
 	fmt.Fprintf(&src, "// Replay of obligation %s\n// goal: %s\n// position: %s\n", o.Name, o.Goal, o.Pos)
-	fmt.Fprintf(&src, "func %s(t *testing.T) {\n\t__replayBound = %d\n", testName, cur.maxLen+2)
+	fmt.Fprintf(&src, "func %s(rpT *testing.T) {\n\t__replayBound = %d\n", testName, cur.maxLen+2)
 	for _, s := range cur.stmts {
 		fmt.Fprintf(&src, "\t%s\n", s)
 	}
@@ -553,13 +553,13 @@ func tryReplay(dir string, o *Obligation, r *checkRun) (string, bool) {
 	if _, isSafe := map[string]bool{"safe:idx": true, "safe:slice": true, "safe:nil": true, "safe:div": true, "safe:nilmap": true, "safe:make": true, "safe:panic": true}[ri.kind]; isSafe {
 		cur.imports["fmt"] = "fmt"
 		cur.imports["strings"] = "strings"
-		fmt.Fprintf(&src, "\tif panicked != nil && strings.Contains(fmt.Sprint(panicked), %q) {\n\t\tt.Fatalf(\"VERIF-REPRODUCED: the real function panicked: %%v\", panicked)\n\t}\n", wantPanic)
-		src.WriteString("\tif panicked != nil {\n\t\tt.Skipf(\"VERIF-INCONCLUSIVE: unrelated panic: %v\", panicked)\n\t}\n")
+		fmt.Fprintf(&src, "\tif panicked != nil && strings.Contains(fmt.Sprint(panicked), %q) {\n\t\trpT.Fatalf(\"VERIF-REPRODUCED: the real function panicked: %%v\", panicked)\n\t}\n", wantPanic)
+		src.WriteString("\tif panicked != nil {\n\t\trpT.Skipf(\"VERIF-INCONCLUSIVE: unrelated panic: %v\", panicked)\n\t}\n")
 	} else {
-		src.WriteString("\tif panicked != nil {\n\t\tt.Skipf(\"VERIF-INCONCLUSIVE: the real function panicked (possibly on state the model does not describe): %v\", panicked)\n\t}\n")
+		src.WriteString("\tif panicked != nil {\n\t\trpT.Skipf(\"VERIF-INCONCLUSIVE: the real function panicked (possibly on state the model does not describe): %v\", panicked)\n\t}\n")
 	}
-	fmt.Fprintf(&src, "\tif !(%s) {\n\t\tt.Fatalf(\"VERIF-REPRODUCED: clause violated on the real code: %%s\", %q)\n\t}\n", clauseGo, o.Goal)
-	src.WriteString("\tt.Log(\"VERIF-NOT-REPRODUCED: the clause holds on these inputs\")\n}\n")
+	fmt.Fprintf(&src, "\tif !(%s) {\n\t\trpT.Fatalf(\"VERIF-REPRODUCED: clause violated on the real code: %%s\", %q)\n\t}\n", clauseGo, o.Goal)
+	src.WriteString("\trpT.Log(\"VERIF-NOT-REPRODUCED: the clause holds on these inputs\")\n}\n")
 	// only the imports the file uses
 	var ipaths []string
 	for p := range cur.imports {
